@@ -336,7 +336,11 @@ func (g *G) param(allowWordOps bool) {
 
 func (g *G) arithExp() {
 	g.b.WriteString("$((")
-	g.b.WriteString(g.S.Pick([]string{"1+2", " x + 1 ", "x", "1", "x*y", "x<<2", "1 ? 2 : 3", "x=4", "$x+1", "a[", "08"}))
+	pool := []string{"1+2", " x + 1 ", "x", "1", "x*y", "x<<2", "1 ? 2 : 3", "x=4", "$x+1", "a[", "08"}
+	if g.O.MultiByte {
+		pool = append(pool, "é + 1", " \"é\" + 1 ", "日本+x", "'é' * 2")
+	}
+	g.b.WriteString(g.S.Pick(pool))
 	g.b.WriteString("))")
 }
 
@@ -456,7 +460,7 @@ func (g *G) hdBody(op, delim string, quoted bool) string {
 	var b strings.Builder
 	for i := 0; i < n; i++ {
 		var line string
-		pool := 14
+		pool := 20
 		if g.O.HeredocBodyPool == 1 {
 			pool = 4
 		}
@@ -497,6 +501,22 @@ func (g *G) hdBody(op, delim string, quoted bool) string {
 			line = "ar $((1+2)) é"
 		case 13:
 			line = "quote ' \" ; | & # ( )"
+		case 14:
+			line = "v ${y}" + delim // the delimiter text at the end of a line, after an expansion
+		case 15:
+			line = "$(a b)" + delim
+		case 16:
+			line = "`a b`" + delim
+		case 17:
+			line = "\\$" + delim
+		case 18:
+			line = "$1" + delim
+		case 19:
+			if op == "<<-" {
+				line = "$x\t" + delim
+			} else {
+				line = "$x " + delim
+			}
 		}
 		b.WriteString(line)
 		b.WriteString("\n")
@@ -686,6 +706,12 @@ func (g *G) command() {
 				if g.pending() && g.canNewline() {
 					g.newline()
 				} else {
+					if hasList && g.S.Chance(1, 4) {
+						// "a) cmd; ;;" — the list may end with its own separator
+						g.optBlank()
+						g.b.WriteString(g.S.Pick([]string{";", "&", ";"}))
+						g.b.WriteString(" ")
+					}
 					g.optBlank()
 				}
 				g.b.WriteString(";;")
@@ -715,7 +741,11 @@ func (g *G) command() {
 	case 8: // arithmetic command
 		if g.O.ArithCmd {
 			g.b.WriteString("((")
-			g.b.WriteString(g.S.Pick([]string{" x + 1 ", "x=1", " x = y * 2 ", "x++", "1"}))
+			apool := []string{" x + 1 ", "x=1", " x = y * 2 ", "x++", "1"}
+			if g.O.MultiByte {
+				apool = append(apool, " é + 1 ", "\"é\" + x")
+			}
+			g.b.WriteString(g.S.Pick(apool))
 			g.b.WriteString("))")
 		} else {
 			g.simpleCmd()
